@@ -57,7 +57,7 @@ def gen_mixed(rng, tier, kinds=None, allow_faults=True, ends=None, modes=("plain
             if r < 0.12:
                 ops.append({"op": "cancel", "f": rng.choice(mine)})
             elif r < 0.2:
-                ops.append({"op": "callback", "f": rng.choice(mine), "mode": rng.choice(["ok", "raise", "raise_base"])})
+                ops.append({"op": "callback", "f": rng.choice(mine), "mode": rng.choice(["ok", "raise", "raise_base", "submit", "submit"])})
             elif r < 0.3:
                 ops.append({"op": "sleep", "d": rng.choice([0.001, 0.05, 0.5, 2.0])})
             elif r < 0.36 and mode == "reusable":
@@ -88,7 +88,7 @@ def gen_mixed(rng, tier, kinds=None, allow_faults=True, ends=None, modes=("plain
                 fid += 1
     spec = dict(family="mixed", knobs=focus_hot(rng, gen_knobs(rng, tier), threads), model=gen_model(rng), threads=threads,
                 faults=gen_faults(rng, workers) if allow_faults else [],
-                hold_refs=rng.random() < 0.8)
+                hold_refs=rng.random() < 0.8, join_users=rng.random() < 0.85)
     return spec
 
 
